@@ -257,6 +257,25 @@ _NOTE_REPLACED = {
            "static bound in reach) and the k-space increments of spokes_grad. Trusted: numpy linspace/concatenate semantics; the arithmetic lemma ceil(X) >= X; divisions are by non-zero "
            "finite scalars. Paths on which trap_grad reads its ramp-sampling flag before binding it, or branches against the constant just assigned to it, cannot return and are skipped.",
 }
+_ADDED2 = {
+    "C01": " An identity shortcut in an _apply (returning the input unchanged) is admitted only for Multiply by the scalar 1.",
+    "C02": " A return statement chosen by a branch on the input's dtype/values makes the map piecewise and is rejected (a cast to the common result_type is not such a branch).",
+    "C03": " _combine_compose_linops keeps every operand (G4c), so validating the flattened chain is validating the given one.",
+    "C04": " The closures LinearLeastSquares builds around A.N never update an operator result in place (N4b): an Identity normal operator returns the iterate itself.",
+    "C05": " FFT and IFFT name each other as adjoint with the same shape, axes and center flag (F6).",
+    "C06": " nufft, nufft_adjoint and toeplitz_psf never write through their array arguments (U6, interprocedural effect analysis).",
+    "C09": " In the scatter kernels a `break` is admitted only under `block number < 0` (it keeps decreasing along the offset loop); `continue` guards are unrestricted.",
+    "C13": " No two state arrays of GradientMethod / PDHG are one object at the end of __init__ or _update (S6, must-alias information of the value numbering), and no "
+           "_update updates in place a value that A, AH, gradf or a prox returned (S7).",
+    "C14": " The functions handed to the algorithms (gradf, minL_x, ...) never update an operator result or their own argument in place (L5).",
+    "C15": " Alg.__init__ stores the budget it is given and starts the counter at 0 (T6).",
+    "C16": " The recon constructors and Sense never write the caller's k-space, maps, weights or coordinates (E4); because sigpy/app.py is an anchor of this property the "
+           "routing rules of C14 are run as part of this check as well.",
+    "C18": " No function of mri/samp.py is memoised or keeps results in module-level state (B5).",
+    "C19": " No simulator / SLR function is memoised or keeps work buffers in module-level state (Q6).",
+}
+for _k, _v in _ADDED2.items():
+    _ADDED[_k] = _ADDED.get(_k, "") + _v
 for _k, _v in _ADDED.items():
     CLAIMS[_k]["text"] = CLAIMS[_k]["text"] + _v
 for _k, _v in _NOTE_REPLACED.items():
